@@ -84,24 +84,24 @@ def floors(tier):
     k = 1 if tier == "quick" else 10
     return {
         "comparisons": {
-            "multi.cost==sum(members)": 150 * k,
-            "multi.cost==joint": 60 * k,
-            "values.multi": 300 * k,
-            "values.member": 600 * k,
-            "member.cost_function_value": 500 * k,
-            "multi.total_cov_mat": 120 * k,
-            "multi.total_cov_mat==V_joint": 40 * k,
-            "member.parameter_values": 80 * k,
-            "member.parameter_errors": 80 * k,
-            "member.parameter_cov_mat": 80 * k,
-            "member.parameter_cor_mat": 80 * k,
-            "member.asymmetric_parameter_errors": 10 * k,
-            "member.fixed_parameters": 200 * k,
-            "single.parameter_values": 4 * k,
-            "single.parameter_cov_mat": 4 * k,
-            "gls.parameter_values": 6 * k,
+            "multi.cost==sum(members)": 120 * k,
+            "multi.cost==joint": 50 * k,
+            "values.multi": 250 * k,
+            "values.member": 500 * k,
+            "member.cost_function_value": 400 * k,
+            "multi.total_cov_mat": 100 * k,
+            "multi.total_cov_mat==V_joint": 30 * k,
+            "member.parameter_values": 60 * k,
+            "member.parameter_errors": 60 * k,
+            "member.parameter_cov_mat": 60 * k,
+            "member.parameter_cor_mat": 60 * k,
+            "member.asymmetric_parameter_errors": 8 * k,
+            "member.fixed_parameters": 150 * k,
+            "single.parameter_values": 3 * k,
+            "single.parameter_cov_mat": 3 * k,
+            "gls.parameter_values": 5 * k,
             "refusal": 2 * k,
-            "multi-fits": 80 * k,
+            "multi-fits": 40 * k,
         },
         "ops": OPS,
         "reach": ["%s:%s" % a for a in ANCHORS],
@@ -113,7 +113,7 @@ def floors(tier):
             "shared:all", "shared:subset", "shared:nonadjacent", "shared:two-sources", "shared:with-nonchi2-member",
             "refuse:size", "refuse:reference", "twin:iminuit", "twin:scipy", "iminuit", "scipy", "gls:shared", "gls:unshared",
         ],
-        "distinct_nontrivial": 80 * k,
+        "distinct_nontrivial": 40 * k,
     }
 
 
